@@ -282,12 +282,34 @@ def run_site(site, ver, key, corr, seed, record=None):
     if site in ("pha", "pha_fin") and p.both_ok:
         # server requests post-handshake authentication
         info["before"] = p.s.session.clientCertChain
-        outs, _ = drive({"s": p.s.request_post_handshake_auth()}, p.link,
-                        on_stall="leave")
+        pha_settings, forced = None, None
+        if site == "pha" and corr in ("unoffered", "resigned_ok") and \
+                key in ("rsa", "rsa1024", "c_rsa"):
+            # this request offers RSA with SHA-256 only; the client ignores
+            # the list and signs with a SHA-384 scheme ('resigned_ok': the
+            # control, it is forced to the scheme that was offered)
+            from tlslite.constants import SignatureScheme
+            pha_settings = sc.mk_settings(rsaSigHashes=["sha256"],
+                                          rsaSchemes=["pss"])
+            forced = SignatureScheme.rsa_pss_rsae_sha384 \
+                if corr == "unoffered" else SignatureScheme.rsa_pss_rsae_sha256
+            info["pha_forced"] = forced
+        outs, _ = drive({"s": p.s.request_post_handshake_auth(pha_settings)},
+                        p.link, on_stall="leave")
         if not outs["s"].ok:
             raise BaselineBroken("pha-request", repr(outs["s"]))
         # client processes the request (and answers), server reads answer
-        oc = sc.do_read(p, "c", 10, 0)
+        if forced is not None:
+            import tlslite.tlsrecordlayer as trl
+            orig_gfm = trl.getFirstMatching
+            trl.getFirstMatching = lambda a, b: forced
+            try:
+                oc = sc.do_read(p, "c", 10, 0)
+            finally:
+                trl.getFirstMatching = orig_gfm
+            state["seen"] += 1
+        else:
+            oc = sc.do_read(p, "c", 10, 0)
         os_ = sc.do_read(p, "s", 10, 0)
         info["pha_client"] = oc
         info["pha_server"] = os_
@@ -376,8 +398,16 @@ def check_sig(case):
             raise BaselineBroken("pha-base-handshake", "%r %r" % (p.co, p.so))
         os_ = info["pha_server"]
         got = p.s.session.clientCertChain
-        if corr in ("unoffered", "resigned_ok"):
+        if corr in ("unoffered", "resigned_ok") and \
+                info.get("pha_forced") is None:
             return good(nt=False, labels=labels + ["not-applicable"])
+        if corr == "resigned_ok":
+            if os_.state == "exc" or got is None:
+                return bad("resigned-control-rejected:" + where,
+                           "post-handshake proof with the one scheme the "
+                           "request offered: server read %r" % (os_,),
+                           labels=labels)
+            return good(labels=labels + ["control-accepted"])
         if corr == "none":
             if os_.state == "exc" or got is None or \
                     got.x509List[0].bytes != presented.x509List[0].bytes:
